@@ -1,27 +1,164 @@
 package main
 
 import (
+	"flag"
 	"fmt"
 	"os"
+	"runtime/debug"
+	"sort"
+	"strconv"
+	"strings"
 	"time"
-
-	"golang.org/x/tools/go/packages"
-	"golang.org/x/tools/go/ssa"
-	"golang.org/x/tools/go/ssa/ssautil"
 )
 
+type propCheck func(w *World)
+
+var registry = map[string]propCheck{}
+
+func register(id string, f propCheck) { registry[id] = f }
+
+var onlyRule string
+
 func main() {
+	prop := flag.String("property", "", "property id (C01..C20) or 'all'")
+	tier := flag.String("tier", "", "quick|thorough (default: $VERIF_TIER or quick)")
+	repo := flag.String("repo", "/repo", "repository root to analyse")
+	verif := flag.String("verif", "/verif", "verification directory (evidence, known findings)")
+	replay := flag.String("replay", "", "replay file: re-evaluates the rule of the recorded obligation")
+	dump := flag.String("dump", "", "debug: dump facts|ssa:<pkg>.<fn>")
+	flag.StringVar(&onlyRule, "only", "", "evaluate only obligations of this rule id when printing (debug/replay)")
+	flag.Parse()
+	if *tier == "" {
+		*tier = os.Getenv("VERIF_TIER")
+	}
+	if *tier != "thorough" {
+		*tier = "quick"
+	}
+	seed := 0
+	if s := os.Getenv("VERIF_SEED"); s != "" {
+		seed, _ = strconv.Atoi(s)
+	}
+	if *replay != "" {
+		p, r, err := readReplay(*replay)
+		if err != nil {
+			fmt.Println("ERROR:", err)
+			os.Exit(1)
+		}
+		*prop, onlyRule = p, r
+	}
 	t0 := time.Now()
-	cfg := &packages.Config{Mode: packages.LoadAllSyntax, Dir: "/repo", Env: append(os.Environ(), "GOFLAGS=-mod=mod", "GOPROXY=off", "GOSUMDB=off", "GOTOOLCHAIN=local", "GOWORK=off")}
-	pkgs, err := packages.Load(cfg, "./...")
+	w, err := loadWorld(*repo, *tier, "")
 	if err != nil {
-		panic(err)
+		fmt.Println("ERROR loading program:", err)
+		if *prop != "" && *prop != "all" {
+			fmt.Printf("VIOLATION property=%s replay=%s\n", *prop, "-")
+		}
+		os.Exit(1)
 	}
-	fmt.Println(len(pkgs), time.Since(t0))
-	for _, p := range pkgs {
-		fmt.Println(p.PkgPath, len(p.Errors))
+	if *dump != "" {
+		doDump(w, *dump)
+		return
 	}
-	prog, _ := ssautil.AllPackages(pkgs, ssa.InstantiateGenerics)
-	prog.Build()
-	fmt.Println(time.Since(t0))
+	var props []string
+	if *prop == "all" {
+		for k := range registry {
+			props = append(props, k)
+		}
+		sort.Strings(props)
+	} else if _, ok := registry[*prop]; ok {
+		props = []string{*prop}
+	} else {
+		fmt.Printf("unknown property %q\n", *prop)
+		os.Exit(2)
+	}
+	exit := 0
+	for _, p := range props {
+		func() {
+			defer func() {
+				if r := recover(); r != nil {
+					w.undecided(p, "R00.panic", "checker panic", 0, fmt.Sprintf("%v\n%s", r, debug.Stack()))
+				}
+			}()
+			f := w.Facts()
+			for _, e := range f.err {
+				w.undecided(p, "R00.facts", "fact extraction: "+e, 0, e)
+			}
+			registry[p](w)
+		}()
+		extra := map[string]interface{}{}
+		if *tier == "thorough" {
+			thoroughExtras(w, p, extra)
+		}
+		if c := w.finish(p, *verif, seed, time.Since(t0).Seconds(), extra); c != 0 {
+			exit = 1
+		}
+	}
+	os.Exit(exit)
+}
+
+func readReplay(path string) (string, string, error) {
+	b, err := os.ReadFile(path)
+	if err != nil {
+		return "", "", err
+	}
+	s := string(b)
+	get := func(key string) string {
+		i := strings.Index(s, "\""+key+"\": \"")
+		if i < 0 {
+			return ""
+		}
+		r := s[i+len(key)+5:]
+		return r[:strings.Index(r, "\"")]
+	}
+	p, r := get("property"), get("rule")
+	if p == "" {
+		return "", "", fmt.Errorf("replay file %s has no property", path)
+	}
+	return p, r, nil
+}
+
+func doDump(w *World, what string) {
+	f := w.Facts()
+	switch {
+	case what == "facts":
+		fmt.Println("errors:", f.err)
+		fmt.Println("NTs:", len(f.NTNames), "Ts:", len(f.TNames), "alts:", f.NumAlts)
+		var nts []string
+		for nt := range f.Alts {
+			nts = append(nts, nt)
+		}
+		sort.Strings(nts)
+		for _, nt := range nts {
+			for _, a := range f.Alts[nt] {
+				h := ""
+				if hd := f.Handlers[nt]; hd != nil {
+					h = "  -> " + hd.Fn.Name()
+				}
+				fmt.Println(" ", a.String(), h)
+			}
+		}
+		fmt.Println("handlers:", len(f.Handlers), "dups:", f.HandlerDup)
+		var bs []string
+		for k := range f.Builtins {
+			bs = append(bs, k)
+		}
+		sort.Strings(bs)
+		for _, k := range bs {
+			b := f.Builtins[k]
+			s := ""
+			for ar, fn := range b.Fns {
+				s += fmt.Sprintf(" %d:%s", ar, fn.Name())
+			}
+			fmt.Println("  builtin", k, s)
+		}
+	case strings.HasPrefix(what, "ssa:"):
+		name := strings.TrimPrefix(what, "ssa:")
+		i := strings.LastIndex(name, ".")
+		fn := w.member(name[:i], name[i+1:])
+		if fn == nil {
+			fmt.Println("not found")
+			return
+		}
+		fn.WriteTo(os.Stdout)
+	}
 }
